@@ -495,6 +495,68 @@ pub(crate) fn process_handler_blueprint(
 /// This function is now a "pure" processor for CQEs. It reads from the completion queue,
 /// processes each entry, and returns a list of new I/O work (blueprints) that the
 /// handlers generated in response. The main loop is then responsible for submitting this new work.
+/// A completion for an operation whose descriptor has been closed meanwhile. Nobody is told and
+/// nothing is retried: what the completion carries is given back, and the entry is dropped once the
+/// kernel will not post anything more for it.
+fn reap_orphaned_completion(
+  worker: &mut UringWorker,
+  cqe_user_data: UserData,
+  cqe_result: i32,
+  cqe_flags: u32,
+  op_type: InternalOpType,
+) {
+  let is_notification = (cqe_flags & CQE_F_NOTIFY_FLAG) != 0;
+  let more_to_come = !is_notification && (cqe_flags & IOURING_CQE_F_MORE) != 0;
+
+  if let Some(bid) = cqueue::buffer_select(cqe_flags) {
+    if let Some(bm) = worker.buffer_manager.as_ref() {
+      if let Err(e) = bm.reprovide_buffer(bid) {
+        tracing::warn!("cqe_processor: reprovide_buffer({}) for a closed connection failed: {:?}", bid, e);
+      }
+    }
+  }
+
+  let is_zc_send = matches!(
+    op_type,
+    InternalOpType::SendZeroCopy | InternalOpType::SendZeroCopyLeased
+  );
+  if more_to_come && !is_zc_send {
+    return; // a multishot operation: the entry stays until its last completion
+  }
+
+  let Some(details) = worker
+    .internal_op_tracker
+    .take_for_completion(cqe_user_data, is_notification)
+  else {
+    return;
+  };
+  match details.payload {
+    InternalOpPayload::SendZeroCopy { send_buf_id, .. }
+    | InternalOpPayload::SendZeroCopyLeased { send_buf_id } => {
+      if more_to_come {
+        // the kernel still uses the registered buffer until it posts the notification
+        worker.internal_op_tracker.reinsert_for_notification(
+          cqe_user_data,
+          InternalOpDetails {
+            fd: ORPHANED_OP_FD,
+            op_type: InternalOpType::SendZeroCopyLeased,
+            payload: InternalOpPayload::SendZeroCopyLeased { send_buf_id },
+          },
+        );
+      } else if let Some(pool) = &worker.send_buffer_pool {
+        pool.release_buffer(send_buf_id);
+      }
+    }
+    _ => {
+      if details.op_type == InternalOpType::Accept && cqe_result >= 0 {
+        unsafe {
+          libc::close(cqe_result as RawFd);
+        }
+      }
+    }
+  }
+}
+
 pub(crate) fn process_all_cqes(
   worker: &mut UringWorker,
   is_worker_shutting_down: bool,
@@ -675,9 +737,19 @@ pub(crate) fn process_all_cqes(
     let mut is_multishot_read_pending_more = false;
     let mut was_delegated_to_multishot_handler = false;
 
-    if let Some(peeked_details) = worker.internal_op_tracker.get_op_details(cqe_user_data) {
+    let is_notification_cqe = (cqe_flags & CQE_F_NOTIFY_FLAG) != 0;
+
+    if let Some(peeked_details) = worker
+      .internal_op_tracker
+      .get_for_completion(cqe_user_data, is_notification_cqe)
+    {
       let handler_fd_peeked = peeked_details.fd;
       let op_type_peeked = peeked_details.op_type;
+
+      if handler_fd_peeked == ORPHANED_OP_FD {
+        reap_orphaned_completion(worker, cqe_user_data, cqe_result, cqe_flags, op_type_peeked);
+        continue;
+      }
 
       if op_type_peeked == InternalOpType::RingReadMultishot {
         if cqe_result >= 0 && (cqe_flags & IOURING_CQE_F_MORE) != 0 {
@@ -758,8 +830,9 @@ pub(crate) fn process_all_cqes(
     }
 
     if !is_multishot_read_pending_more && !was_delegated_to_multishot_handler {
-      op_details_taken_for_final_processing =
-        worker.internal_op_tracker.take_op_details(cqe_user_data);
+      op_details_taken_for_final_processing = worker
+        .internal_op_tracker
+        .take_for_completion(cqe_user_data, is_notification_cqe);
     }
 
     if let Some(op_details) = op_details_taken_for_final_processing {
@@ -899,26 +972,15 @@ pub(crate) fn process_all_cqes(
             if let Some(mut h) = worker.handler_manager.remove_handler(handler_fd) {
               h.fd_has_been_closed();
             }
-            // Drop all queued write blueprints and in-flight send buffer allocations
-            // for this fd so they are freed immediately rather than leaking.
+            // Drop all queued write blueprints for this fd. What is already in the kernel stays
+            // tracked until its completion arrives (see `orphan_ops_for_fd`).
             worker.work_map.remove(&handler_fd);
             // A close requested for this descriptor by an earlier completion must not reach
             // the next connection that is given the same number.
             worker
               .fds_needing_close_initiated_pass
               .retain(|fd| *fd != handler_fd);
-            let removed_ops = worker.internal_op_tracker.remove_ops_for_fd(handler_fd);
-            for op in removed_ops {
-              match op.payload {
-                InternalOpPayload::SendZeroCopy { send_buf_id, .. }
-                | InternalOpPayload::SendZeroCopyLeased { send_buf_id } => {
-                  if let Some(pool) = &worker.send_buffer_pool {
-                    pool.release_buffer(send_buf_id);
-                  }
-                }
-                _ => {}
-              }
-            }
+            worker.internal_op_tracker.orphan_ops_for_fd(handler_fd);
             if let Some(mailbox) = mailbox_for_close_notify {
               let endpoint_uri = endpoint_uri_for_notify.unwrap_or_default();
               // through a short-lived clone, so that no queue nodes stay cached in a long-lived sender
@@ -953,32 +1015,6 @@ pub(crate) fn process_all_cqes(
               _ => {}
             }
             continue; // Buffer released, nothing more to do for F_NOTIFY.
-          }
-
-          if handler_fd == ORPHANED_OP_FD {
-            // The connection was closed while this send was in the kernel. Its buffers were kept
-            // until now; nothing is retried and nobody is told.
-            match op_details.payload {
-              InternalOpPayload::SendZeroCopy { send_buf_id, .. }
-              | InternalOpPayload::SendZeroCopyLeased { send_buf_id } => {
-                if !is_initial_with_more {
-                  if let Some(pool) = &worker.send_buffer_pool {
-                    pool.release_buffer(send_buf_id);
-                  }
-                } else {
-                  worker.internal_op_tracker.reinsert_for_notification(
-                    cqe_user_data,
-                    InternalOpDetails {
-                      fd: ORPHANED_OP_FD,
-                      op_type: InternalOpType::SendZeroCopyLeased,
-                      payload: InternalOpPayload::SendZeroCopyLeased { send_buf_id },
-                    },
-                  );
-                }
-              }
-              _ => {}
-            }
-            continue;
           }
 
           if cqe_result < 0 {
